@@ -435,3 +435,7 @@ package base
 //@ # ---- C19: an overload extends a method of the very same class ----
 //@ spec ownMethod(frame, class, method) = TFrame[methodTFrameKey(frame, class, method, false)]
 //@ spec ownClassMethod(frame, class, method) = TFrame[classMethodTFrameKey(frame, class, method, false)]
+
+//@ func ti/base.CalculateFrame
+//@   # frame of a class nested in `class` inside `frame` ("A" + "B" -> "A::B"; an empty part is skipped)
+//@   ensures[C27,C20] result == ite(frame == "" && class == "", "", ite(frame == "", class, ite(class == "", frame, frame + "::" + class)))
